@@ -197,6 +197,11 @@ def run(ctx):
     ctx.traces += len(cases)
     ctx.sample({"file": [dec(t) for t in cases[-1]["texts"]], "variant": cases[-1]["v"],
                 "expected_features": [[dec(f["id"]), dec(f["ftype"]), f["start"], f["end"]] for f in cases[-1]["view"]["feats"]]})
+    # the lemma the scaled file rests on: a file followed by its renamed copy imports to the union of both (MC_DB03C)
+    lem = ctx.tlc("MC_DB03C", MC_CFG % (4 if thorough else 3, "") + "INVARIANT InvBlockComposeGtf\n", expect="inv", label="block composition of the GTF importer", timeout=2400)
+    ctx.extra["block_compose_gtf"] = lem.violated or "holds"
+    if not lem.ok:
+        ctx.violation({"tlc": "MC_DB03C"}, "model:" + str(lem.violated), {"log": ctx.keep_log("MC_DB03C", lem.out)})
     # D4: scale - more than a thousand lines without any explicit gene/transcript line, then blocks that have them
     dflt = [k for k, c in enumerate(cases) if not (c["v"]["noT"] or c["v"]["noG"] or c["v"]["custom"]) and c["st"] == "ok"]
     plain = [k for k in dflt if not any(x in (7, 8, 9) for x in cases[k]["sel"])]
